@@ -565,8 +565,8 @@ InlinePAChecks(r) ==
                                            /\ \A k \in 1..Kn, t \in 1..Tn : REq(r.out[k][t], Post(r.ms, r.me, r.w, p)[k][t])>>,
                   <<"sums_to_one", \A t \in 1..Tn : RSum([k \in 1..Kn |-> r.out[k][t]]) = <<1, 1>>>> >>
 
-\* float problems: r.Q[i] the criterion sum_n ln sum_k w_k exp(spatial_{p_i(k), n} + spectral_{k, n}) of the i-th permutation (first =
-\* identity), r.chosen the permutations whose Bayes posterior equals the returned affiliation
+\* float problems: r.Q[i] the aligner's criterion sum_n sum_k g_kn lp_kn (g = softmax over classes of lp = spatial_{p_i(k), n} +
+\* spectral_{k, n}) of the i-th permutation (first = identity), r.chosen the permutations whose Bayes posterior equals the returned affiliation
 InlinePAFChecks(r) ==
   IF r.exc # "" THEN << <<"raises", FALSE>> >>
   ELSE LET tol(x, y) == FMul(FNorm(64, -19), FAdd(FAdd(FAbs(x), FAbs(y)), FOne))
